@@ -1098,7 +1098,9 @@ func (c *Ctx) protectTotality(r *Report, prefix string) {
 			CallVals: map[string][]int64{"Type": {46}}, Rel: recvRel, LenDom: map[string][2]int64{"msg": {64, INF}, "ikeMsg.Payloads": {1, INF}}}
 	}
 	if dd != nil {
-		specs[dd] = &domSpec{ExactLenParam: -1, NonNil: nonNil("ikesaKey", "msg"), EnvErr: codec, LenDom: map[string][2]int64{"msg": {64, INF}}}
+		// a genuine protected datagram decodes to at least its Encrypted payload
+		specs[dd] = &domSpec{ExactLenParam: -1, NonNil: nonNil("ikesaKey", "msg"), EnvErr: codec, LenDom: map[string][2]int64{"msg": {64, INF}},
+			FieldLen: map[string][2]int64{"message.IKEMessage.Payloads": {1, INF}}}
 	}
 	for _, n := range []string{"verifyIntegrity", "calculateIntegrity", "encryptPayload", "decryptPayload"} {
 		if fn := c.Func("", n); fn != nil {
